@@ -5,6 +5,7 @@ package gen
 
 import (
 	"fmt"
+	"strings"
 	"time"
 
 	gtfsrt "github.com/jamespfennell/gtfs/proto"
@@ -213,6 +214,12 @@ func (w *World) newTrain(i int) *train {
 		t.Probe("world-start-after-24h")
 	}
 	path := []string{"", "01R", "X", "02"}[t.Choose(4)]
+	if t.Chance(1, 10) {
+		// a long id (40-70 bytes) that shares all but its last byte with other long ids of the run (fixed-size
+		// buffers and keys cut to a length confuse them)
+		path = strings.Repeat("PATHWAY7", 8)[:37+t.Choose(24)] + string(rune('a'+t.Choose(3)))
+		t.Probe("world-long-trip-id")
+	}
 	id := fmt.Sprintf("%06d_%s..%c%s", hm, r, dir, path)
 	if w.Cfg.SharedKeys && i > 0 && t.Chance(1, 2) {
 		// same suffix and same explicit start time as train 0, different 6-char prefix
